@@ -206,7 +206,7 @@ class Check:
             return False
         return True
 
-    def stream(self, name, harness_args, driver_mode, prefix_arg_index=None):
+    def stream(self, name, harness_args, driver_mode, prefix_arg_index=None, between=None):
         """model-vs-implementation co-simulation: the harness writes <prefix>.ops / <prefix>.impl, the Lean driver
         answers the same ops, outputs are diffed line by line.  A disagreement is reported with the op sequence
         since the last `reset` (the minimal context in which it replays)."""
@@ -222,6 +222,11 @@ class Check:
             self.streams[name] = st
             self.violation("correspondence", "stream %s: harness failed" % name, {"output": out[-800:]}, False)
             return st
+        if between is not None:
+            # a second producer of <prefix>.impl (e.g. the Python side of X-py) runs on the files the harness wrote
+            if not between(prefix, st):
+                self.streams[name] = st
+                return st
         exe = os.path.join(LEAN, ".lake", "build", "bin", "driver")
         with open(prefix + ".ops") as f:
             ops_txt = f.read()
